@@ -92,7 +92,7 @@ GraphInstr == {"GRAPH.ADD", "GRAPH.DUP", "GRAPH.NODE*ADD", "GRAPH.NODE*GETSTATE"
                "GRAPH.EDGE*HISTORY", "GRAPH.EDGE*GETWEIGHT", "GRAPH.EDGE*SETWEIGHT"}
 
 SetTop(s, g) == SetF(s, "graph", <<g>> \o Tail(s.graph))
-PushGraph(s, g) == IF Len(s.graph) >= GraphCap THEN s ELSE PushOn(s, "graph", g)
+PushGraph(s, g) == IF Len(s.graph) >= s.cfg.graph_cap THEN s ELSE PushOn(s, "graph", g)
 PermHole(f) == <<Hole(<<f, 1>>, "perm")>>
 SetHole(f)  == <<Hole(<<f, 1>>, "sameset")>>
 
